@@ -39,6 +39,7 @@ template<class T> static void do_vec(Toks &t, std::ostream &out) {
         if (o == "U") { size_t d = t.next_sz(), i = t.next_sz(); st[d] = i; }
         else if (o == "C") { size_t d = t.next_sz(), a = t.next_sz(); V tmp(st[a]); st[d] = tmp; }
         else if (o == "A") { size_t d = t.next_sz(), a = t.next_sz(); st[d] = st[a]; }
+        else if (o == "M") { size_t d = t.next_sz(), a = t.next_sz(); V tmp(st[a]); V other(p == T(3) ? T(5) : T(3)); st[d] = other; st[d] = std::move(tmp); }   // target first COPY-assigned a vector over another prime
         else if (o == "P") { size_t d = t.next_sz(), a = t.next_sz(), b = t.next_sz(); st[d] = st[a] + st[b]; }
         else if (o == "Q") { size_t d = t.next_sz(), a = t.next_sz(); st[d] += st[a]; }
         else if (o == "S") { size_t d = t.next_sz(), a = t.next_sz(); T c = parse<T>(t.next()); st[d] = st[a] * c; }
